@@ -34,18 +34,30 @@ MAX_ROUNDS = 4
 
 
 def load_func_ref():
+    """{function key: [parameter names]} of the reference tree (a set-like mapping: `key in ref`)"""
     global _FREF
     if _FREF is None:
         try:
             with open(FUNC_REF_FILE) as fh:
-                _FREF = set(json.load(fh))
+                d = json.load(fh)
+            _FREF = d if isinstance(d, dict) else {k: None for k in d}
         except Exception:
             _FREF = None
     return _FREF
 
 
+def _all_params(fn):
+    a = fn.args
+    out = [x.arg for x in a.posonlyargs + a.args + a.kwonlyargs]
+    if a.vararg:
+        out.append("*" + a.vararg.arg)
+    if a.kwarg:
+        out.append("**" + a.kwarg.arg)
+    return out
+
+
 def build_function_reference(root, pkg="flumine"):
-    out = []
+    out = {}
     pkgdir = os.path.join(root, pkg)
     for dp, dn, fns in sorted(os.walk(pkgdir)):
         dn.sort()
@@ -55,8 +67,8 @@ def build_function_reference(root, pkg="flumine"):
                 rel = os.path.relpath(path, root)
                 tree = ast.parse(open(path, encoding="utf-8").read())
                 for parts, fn in alpha.walk_functions(tree):
-                    out.append(alpha.function_key(rel, parts))
-    return sorted(out)
+                    out[alpha.function_key(rel, parts)] = _all_params(fn)
+    return out
 
 
 # --------------------------------------------------------------------------------------------- helpers
@@ -98,7 +110,10 @@ class _Helper:
         self.static = "staticmethod" in deco
         self.classmethod = "classmethod" in deco
         self.is_method = cls_node is not None
-        self.other_deco = bool(deco - {"staticmethod", "classmethod"})
+        # a memoising decorator on a pure helper does not change what a call returns
+        transparent = {d for d in deco if d.split("(")[0] in ("lru_cache", "functools.lru_cache", "cache", "functools.cache")}
+        self.is_property = "property" in deco
+        self.other_deco = bool(deco - {"staticmethod", "classmethod", "property"} - transparent)
         a = node.args
         self.params = [x.arg for x in a.posonlyargs + a.args]
         self.kwonly = [x.arg for x in a.kwonlyargs]
@@ -593,6 +608,23 @@ class _Expander:
         helpers = self.new_helpers()
         if not helpers:
             return {}
+        # a read of a new property is the call of its getter
+        props = {n for n, h in helpers.items() if h.is_property}
+        synthetic = []
+        if props:
+            class P(ast.NodeTransformer):
+                def visit_Attribute(self, a):
+                    self.generic_visit(a)
+                    if a.attr in props and isinstance(a.ctx, ast.Load):
+                        c = ast.copy_location(ast.Call(func=a, args=[], keywords=[]), a)
+                        synthetic.append(c)
+                        return c
+                    return a
+            for rel, tree in self.trees.items():
+                for parts, fn in alpha.walk_functions(tree):
+                    if fn.name in props:
+                        continue
+                    fn.body = [P().visit(st) for st in fn.body]
         for _ in range(MAX_ROUNDS):
             any_change = False
             for rel, tree in self.trees.items():
@@ -601,6 +633,19 @@ class _Expander:
                         any_change = True
             if not any_change:
                 break
+        # property reads that could not be expanded are reads again
+        if synthetic:
+            left = {id(c) for c in synthetic}
+
+            class U(ast.NodeTransformer):
+                def visit_Call(self, c):
+                    self.generic_visit(c)
+                    if id(c) in left:
+                        return c.func
+                    return c
+            for rel, tree in self.trees.items():
+                for parts, fn in alpha.walk_functions(tree):
+                    fn.body = [U().visit(st) for st in fn.body]
         # drop helpers that are referenced nowhere any more
         for name, h in helpers.items():
             refs = 0
@@ -1675,4 +1720,128 @@ def sugar_passes(trees):
 def shape_passes(trees):
     n = comprehension_form(trees)
     extend_form(trees)
+    return n
+
+
+# --------------------------------------------------------------------------------------------- new optional parameters
+def specialise_new_parameters(trees):
+    """A parameter that the reference signature of a function does not have, that has a constant default, is
+    never assigned in the body and is passed by no call site in the package, has its default value on every
+    call the package makes: its reads are replaced by the default (the paths that only a new caller can switch
+    on are not part of the behaviour the properties speak about).  Returns {function key: {param: default}}."""
+    fref = load_func_ref()
+    if not fref:
+        return {}
+    applied = {}
+    # keyword names passed anywhere, and the largest number of positional arguments per callee name
+    kw_used, pos_used = {}, {}
+    for tree in trees.values():
+        for c in ast.walk(tree):
+            if isinstance(c, ast.Call):
+                nm = c.func.attr if isinstance(c.func, ast.Attribute) else (c.func.id if isinstance(c.func, ast.Name) else None)
+                for k in c.keywords:
+                    kw_used.setdefault(nm, set()).add(k.arg if k.arg is not None else "**")
+                if nm:
+                    n_pos = len(c.args) + (100 if any(isinstance(a, ast.Starred) for a in c.args) else 0)
+                    pos_used[nm] = max(pos_used.get(nm, 0), n_pos)
+    for rel, tree in trees.items():
+        for parts, fn in alpha.walk_functions(tree):
+            k = alpha.function_key(rel, parts)
+            old = fref.get(k)
+            if old is None:
+                continue
+            a = fn.args
+            pos = a.posonlyargs + a.args
+            defaults = {}
+            for p_, d in zip(pos[len(pos) - len(a.defaults):], a.defaults):
+                defaults[p_.arg] = d
+            for p_, d in zip(a.kwonlyargs, a.kw_defaults):
+                if d is not None:
+                    defaults[p_.arg] = d
+            stored = {n.id for n in _own(fn, ast.Name) if isinstance(n.ctx, (ast.Store, ast.Del))}
+            is_method = len(parts) == 2 and "staticmethod" not in _decorators(fn)
+            mapping = {}
+            for idx, p_ in enumerate(pos + a.kwonlyargs):
+                nm = p_.arg
+                if nm in old or nm not in defaults or nm in stored:
+                    continue
+                d = defaults[nm]
+                if not (isinstance(d, ast.Constant) and (d.value is None or isinstance(d.value, (bool, int, float, str)))):
+                    continue
+                callee_names = {fn.name} | ({parts[0]} if fn.name == "__init__" and len(parts) == 2 else set())
+                used = set().union(*[kw_used.get(cn, set()) for cn in callee_names]) | kw_used.get(None, set())
+                if nm in used or "**" in used:
+                    continue
+                if p_ in pos:
+                    n_before = idx - (1 if is_method else 0)
+                    if max(pos_used.get(cn, 0) for cn in callee_names) > n_before:
+                        continue
+                mapping[nm] = d
+            if mapping:
+                sub = _SubstNames(mapping, {})
+                fn.body = [sub.visit(st) for st in fn.body]
+                applied[k] = {n_: ast.unparse(v) for n_, v in mapping.items()}
+        ast.fix_missing_locations(tree)
+    return applied
+
+
+def _const_test(e):
+    """truth of a test built from constants only (None if not decided)"""
+    if isinstance(e, ast.Constant):
+        return bool(e.value)
+    if isinstance(e, ast.UnaryOp) and isinstance(e.op, ast.Not):
+        v = _const_test(e.operand)
+        return None if v is None else not v
+    if isinstance(e, ast.Compare) and len(e.ops) == 1 and isinstance(e.left, ast.Constant) and isinstance(e.comparators[0], ast.Constant):
+        l, r = e.left.value, e.comparators[0].value
+        op = e.ops[0]
+        if isinstance(op, ast.Is):
+            return l is r
+        if isinstance(op, ast.IsNot):
+            return l is not r
+        if isinstance(op, ast.Eq):
+            return l == r
+        if isinstance(op, ast.NotEq):
+            return l != r
+    if isinstance(e, ast.BoolOp):
+        vals = [_const_test(v) for v in e.values]
+        if isinstance(e.op, ast.And):
+            for v in vals:
+                if v is False:
+                    return False
+                if v is None:
+                    return None
+            return True
+        for v in vals:
+            if v is True:
+                return True
+            if v is None:
+                return None
+        return False
+    return None
+
+
+def prune_constant_branches(trees, only=None):
+    """`if <test decided by constants>:` keeps the branch taken (used after a new parameter has been replaced by
+    its default: the code only a new caller can reach disappears from the analysed function)"""
+    n = 0
+
+    def f(stmts):
+        nonlocal n
+        out = []
+        for s in stmts:
+            if isinstance(s, ast.If):
+                v = _const_test(s.test)
+                if v is not None:
+                    out.extend(s.body if v else s.orelse)
+                    n += 1
+                    continue
+            out.append(s)
+        return out or [ast.Pass()]
+    for rel, tree in trees.items():
+        for parts, fn in alpha.walk_functions(tree):
+            if only is not None and alpha.function_key(rel, parts) not in only:
+                continue
+            fn.body = _map_blocks(fn.body, f)
+        ast.fix_missing_locations(tree)
     return n
